@@ -20,6 +20,7 @@ import concurrent.futures as cf
 import json
 import os
 import random
+import re
 import shutil
 import time
 
@@ -47,13 +48,30 @@ DESIGN_REF = "3/C16"
 
 # (cfg, deadlock check on, expected violated invariant or None)
 MC_QUICK = [("MC_Quic_flow.cfg", True, None), ("MC_Quic_close.cfg", True, None), ("MC_Quic_dgram.cfg", True, None),
-            ("MC_Quic_hs.cfg", True, None), ("MC_Quic_live_flow.cfg", False, None), ("MC_Quic_live_close.cfg", False, None),
-            ("MC_Quic_dev0rtt.cfg", True, None), ("MC_Quic_dev0rtt_strict.cfg", False, "HangFree"),
-            ("MC_Quic_devdrop.cfg", True, None), ("MC_Quic_devdrop_strict.cfg", False, "HangFree")]
-MC_THOROUGH = MC_QUICK + [("MC_Quic_conc.cfg", True, None), ("MC_Quic_live_flow_thorough.cfg", False, None),
+            ("MC_Quic_hs.cfg", True, None), ("MC_Quic_live_close.cfg", False, None),
+            # deviation scenarios: everything holds modulo the named deviation (tolerant invariants and
+            # deadlock check) while the strict HangFree must be violated (control) - one run with -continue
+            ("MC_Quic_dev0rtt.cfg", True, "HangFree"), ("MC_Quic_devdrop.cfg", True, "HangFree")]
+MC_THOROUGH = MC_QUICK + [("MC_Quic_conc.cfg", True, None), ("MC_Quic_live_flow.cfg", False, None),
+                          ("MC_Quic_live_flow_thorough.cfg", False, None),
                           ("MC_Quic_live_close_thorough.cfg", False, None)]
-# actions that belong to a deviation scenario / need their own configuration
-WATCHDOG_KNOWN_MS = 4000
+# every action of Quic.tla has to fire in at least one exhaustive configuration (vacuity check)
+EXPECTED_ACTIONS = """PollOpenStream ExecutePollWrite FinishStream ResetStream PollStopped PollAcceptStream ExecutePollRead
+StopStream TrySendDatagram PollRecvDatagram PollConnecting PollHandshakeData PollAccepted0rtt PollClosed DropClosed
+PollIncoming Close EndpointClose DriverCloseEvent DriverConnectionLost DriverDrained DriverHandshakeDataReady
+DriverConnected DriverStreamFrame DriverResetStream DriverMaxStreamData DriverMaxData DriverFinished DriverStopped
+DriverMaxStreams DriverDatagramSent DriverDatagramReceived DatagramLost Terminated""".split()
+_RE_COV = re.compile(r"^<(\w+) line \d+, col \d+ to line \d+, col \d+ of module Quic(?: \([\d ]+\))?>: (\d+):(\d+)", re.M)
+
+
+def action_counts(r):
+    """vlib's coverage parser misses actions with a LET (TLC appends the body's position)."""
+    cov = {}
+    for m in _RE_COV.finditer(r.out):
+        cov[m.group(1)] = max(cov.get(m.group(1), 0), int(m.group(3)))
+    return cov
+
+WATCHDOG_KNOWN_MS = 3000
 
 
 def _run_bin(args, what):
@@ -88,8 +106,15 @@ def classify(run, summary, details, what, mode):
     return drift
 
 
-def _tlc_job(module, cfg, deadlock, **kw):
-    r = vlib.tlc(module, cfg, workers=2, deadlock=deadlock, **kw)
+# JVMs of this check that run at the same time (the machine is shared with other checks) and
+# their GC threads; more parallelism than this made everything slower under load.
+JOBS = int(os.environ.get("VERIF_C16_JOBS", "4"))
+JVM = ["-XX:ParallelGCThreads=2", "-Xmx3g"]
+
+
+def _tlc_job(module, cfg, deadlock=False, **kw):
+    kw.setdefault("workers", 2)
+    r = vlib.tlc(module, cfg, deadlock=deadlock, jvm=JVM, **kw)
     _t("tlc %s/%s: %d states" % (module, cfg, r.distinct), r.wall)
     return r
 
@@ -99,28 +124,32 @@ def _t(what, secs):
         vlib.log("  [%6.1fs] %s" % (secs, what))
 
 
-def wakers_cases(tier, tmp):
+WAKER_GENS = {"quick": ["Gen_QuicWakers.cfg"], "thorough": ["Gen_QuicWakers_thorough.cfg"]}
+
+
+def wakers_submit(ex, tier):
+    jobs = []
+    for cfg in WAKER_GENS[tier]:
+        out = []
+        jobs.append((cfg, out, ex.submit(_tlc_job, "Gen_QuicWakers", cfg, timeout=900, coverage=False, sink=out.append)))
+    return jobs
+
+
+def wakers_cases(jobs, tier, tmp):
     """Cases from Gen_QuicWakers (TLC enumerates subsets and predicts each outcome)."""
     rnd = random.Random(vlib.seed())
-    cases = []
-
-    def gen(cfg):
-        out = []
-        g = vlib.tlc("Gen_QuicWakers", cfg, timeout=900, coverage=False, sink=out.append, workers=2)
+    conn, special = [], []
+    for cfg, out, fut in jobs:
+        g = fut.result()
         if g.error or g.violated:
             raise vlib.ToolError("Gen_QuicWakers/%s: %s %s\n%s" % (cfg, g.error, g.violated, g.out[-2000:]))
         if not out:
             raise vlib.ToolError("Gen_QuicWakers/%s printed nothing" % cfg)
-        return out
-
-    if tier == "quick":
-        conn = gen("Gen_QuicWakers.cfg")                 # all 2^11 combinations, local close
-        extra = gen("Gen_QuicWakers_quickmix.cfg")       # peer / endpoint close over 6 (+3) kinds
-        conn += extra
-    else:
-        conn = gen("Gen_QuicWakers_thorough.cfg")        # all combinations for local, peer, endpoint
-        # endpoint close: 2^14 combinations with fresh sockets each; keep all 2^11 with {none, all}
-        # endpoint-level kinds and a seeded sample of the rest
+        for o in out:
+            (conn if o["scenario"] in ("conn", "mix") else special).append(o)
+    if tier == "thorough":
+        # endpoint close: 2^14 combinations with fresh sockets each; keep all 2^11 that contain all
+        # three endpoint-level kinds and a seeded sample of the rest
         ep = set(["connecting", "handshake_data", "wait_incoming"])
         keep = []
         for c in conn:
@@ -128,14 +157,14 @@ def wakers_cases(tier, tmp):
                 keep.append(c)
                 continue
             e = ep & set(c["blocked"])
-            if len(e) in (0, 3) or rnd.random() < 0.05:
+            if len(e) == 3 or rnd.random() < 0.03:
                 keep.append(c)
         conn = keep
-    special = gen("Gen_QuicWakers_zrtt.cfg") + gen("Gen_QuicWakers_drop.cfg") + gen("Gen_QuicWakers_closed2.cfg")
+    cases = []
     for i, c in enumerate(conn + special):
         c = dict(c)
         c["id"] = i
-        sides = ["client", "server"] if tier == "thorough" and c["scenario"] == "conn" and c["close"] != "endpoint" \
+        sides = ["client", "server"] if tier == "thorough" and c["scenario"] == "conn" and c["close"] == "local" \
             else ["client" if i % 2 == 0 else "server"]
         if c["scenario"] == "drop":
             c["blocked"] = ["drop_closed"] + c["blocked"]
@@ -143,9 +172,9 @@ def wakers_cases(tier, tmp):
             sides = ["server"]
         if any(e[1] == "stranded" for e in c["expect"]):
             c["watchdog_ms"] = WATCHDOG_KNOWN_MS     # predicted to hang: do not wait the full watchdog
-        for s in sides:
+        for sd in sides:
             d = dict(c)
-            d["side"] = s
+            d["side"] = sd
             cases.append(d)
     path = os.path.join(tmp, "wakers.jsonl")
     with open(path, "w") as f:
@@ -154,29 +183,35 @@ def wakers_cases(tier, tmp):
     return path, cases
 
 
-def programs(tier, tmp):
+PROGRAM_PLAN = [("Gen_Quic.cfg", 0.6), ("Gen_Quic_close.cfg", 0.4)]
+
+
+def programs_submit(ex, tier):
+    want = 100 if tier == "quick" else 2000
+    nsim = {"quick": 1, "thorough": 4}[tier]
+    jobs = []
+    for cfg, share in PROGRAM_PLAN:
+        per = int(want * share * (1.6 if tier == "quick" else 2.2) / nsim) + 5
+        for k in range(nsim):
+            out = []
+            fut = ex.submit(_tlc_job, "Gen_Quic", cfg, timeout=1700, coverage=False, simulate=per, depth=300,
+                            sink=out.append, seed_=vlib.seed() * 7919 + 13 * k + (1 if "close" in cfg else 0))
+            jobs.append((cfg, fut, out))
+    return jobs
+
+
+def programs(jobs, tier, tmp):
     """Programs from behaviours of the model (seeded simulation), de-duplicated."""
     want = 100 if tier == "quick" else 2000
-    plan = [("Gen_Quic.cfg", 0.6), ("Gen_Quic_close.cfg", 0.4)]
     progs, seen = [], set()
-    jobs = []
-    nsim = {"quick": 1, "thorough": 4}[tier]
-    with cf.ThreadPoolExecutor(max_workers=8) as ex:
-        for cfg, share in plan:
-            per = int(want * share * (1.6 if tier == "quick" else 2.2) / nsim) + 5
-            for k in range(nsim):
-                out = []
-                fut = ex.submit(vlib.tlc, "Gen_Quic", cfg, timeout=1500, coverage=False, simulate=per, depth=300,
-                                sink=out.append, seed_=vlib.seed() * 7919 + 13 * k + (1 if "close" in cfg else 0))
-                jobs.append((cfg, share, fut, out))
-        for cfg, share, fut, out in jobs:
-            g = fut.result()
-            if g.error or g.violated:
-                raise vlib.ToolError("Gen_Quic/%s: %s %s\n%s" % (cfg, g.error, g.violated, g.out[-2000:]))
-    for cfg, share in plan:
+    for cfg, fut, out in jobs:
+        g = fut.result()
+        if g.error or g.violated:
+            raise vlib.ToolError("Gen_Quic/%s: %s %s\n%s" % (cfg, g.error, g.violated, g.out[-2000:]))
+    for cfg, share in PROGRAM_PLAN:
         quota = int(want * share)
         n = 0
-        for c2, _, _, out in jobs:
+        for c2, _, out in jobs:
             if c2 != cfg:
                 continue
             for o in out:
@@ -237,34 +272,44 @@ def run(run, tier, replay):
 
         # ---- 1. model checking, generation and the harness build side by side ---------------
         mcs = MC_QUICK if tier == "quick" else MC_THOROUGH
-        with cf.ThreadPoolExecutor(max_workers=8) as ex:
+        # configurations whose actions are a subset of another one's run without coverage statistics
+        nocov = ("live", "dev0rtt")
+        with cf.ThreadPoolExecutor(max_workers=JOBS + 1) as ex:
             build = ex.submit(vlib.cargo_build, "hquic", ["record_quic"])
-            jobs = [(cfg, exp, ex.submit(_tlc_job, "Quic", cfg, dl, timeout=1700)) for cfg, dl, exp in mcs]
-            gen_w = ex.submit(wakers_cases, tier, tmp)
-            gen_p = ex.submit(programs, tier, tmp)
+            jobs = [(cfg, exp, ex.submit(_tlc_job, "Quic", cfg, dl, timeout=1700,
+                                         coverage=not any(x in cfg for x in nocov),
+                                         extra=["-continue"] if exp else None)) for cfg, dl, exp in mcs]
+            wjobs = wakers_submit(ex, tier)
+            pjobs = programs_submit(ex, tier)
             fired = {}
             for cfg, exp, fut in jobs:
                 r = fut.result()
                 name = "Quic/" + cfg
                 if exp:
-                    # control: the strict property must fail where the deviation scenario exists
-                    if r.violated != exp:
-                        raise vlib.ToolError("%s: expected the model to violate %s, got %s %s" %
-                                             (name, exp, r.violated, r.error))
-                    continue
-                vlib.require_model_ok(r, name)
-                for a, (d, t) in r.coverage.items():
+                    # control: the strict property must fail where the deviation scenario exists, and
+                    # nothing else may (TLC ran with -continue over the whole state space)
+                    bad = set(re.findall(r"Invariant (\S+) is violated", r.out))
+                    prop = re.search(r"(Action property \S+ is violated|Temporal properties were violated|"
+                                     r"Deadlock reached)", r.out)
+                    if bad != {exp} or r.error or prop:
+                        raise vlib.ToolError("%s: expected exactly %s to be violated, got %s %s (error %s)\n%s" %
+                                             (name, exp, sorted(bad), prop and prop.group(1), r.error, r.out[-1500:]))
+                    r.violated = None
+                else:
+                    vlib.require_model_ok(r, name)
+                for a, t in action_counts(r).items():
                     fired[a] = fired.get(a, 0) + t
+                r.coverage = {a: (0, t) for a, t in action_counts(r).items() if a in EXPECTED_ACTIONS}
                 run.add_model(name, r)
-            zero = sorted(a for a, t in fired.items() if t == 0)
+            zero = sorted(a for a in EXPECTED_ACTIONS if not fired.get(a))
             if zero:
                 raise vlib.ToolError("Quic: actions never taken in any configuration (vacuous): %s" % zero)
-            run.note("model_actions_fired", len(fired))
+            run.note("model_actions_fired", len(EXPECTED_ACTIONS))
             build.result()
             _t("model checking + build done", time.time() - run.t0)
-            wpath, wcases = gen_w.result()
+            wpath, wcases = wakers_cases(wjobs, tier, tmp)
             _t("waker cases generated", time.time() - run.t0)
-            ppath, progs = gen_p.result()
+            ppath, progs = programs(pjobs, tier, tmp)
             _t("programs generated", time.time() - run.t0)
 
         # ---- 2. binding (b): waker tables at close ------------------------------------------
